@@ -227,6 +227,9 @@ func (v *Val) Build(order int) interface{} {
 		return []byte(v.S)
 	case "buffer": // *bytes.Buffer: a value whose own methods (WriteTo, Read, Next) consume it
 		return bytes.NewBufferString(v.S)
+	case "lazy": // func() interface{}: a value somebody might want to compute on first use
+		text := v.S
+		return func() interface{} { return text }
 	case "func": // a Go callable
 		text := v.S
 		return func() string { return text }
